@@ -40,6 +40,9 @@ def plan(tier, seed):
     return units
 
 
+TRUST_SHAPES = [(0, 0), (1, 0), (0, 1), (1, 1), (2, 1), (0, 3), (0, 0)]
+
+
 def pattern(stream_id, nbytes):
     n = (nbytes + 7) // 8
     base = stream_id << 40
@@ -150,6 +153,10 @@ def u_session(ctx, u):
     rng = ctx.rng
     proto = T.PROTOS[u['proto']]
     creds = T.Creds(ctx, 'c08-%d' % u['_i'], u['inter'])
+    # trust stores of 1..4 roots with the relevant one at every position (the CertificateRequest then names several authorities)
+    before, after = TRUST_SHAPES[u['_i'] % len(TRUST_SHAPES)]
+    if before + after:
+        ctx.stat('sessions_units_with_%d_trusted_roots' % T.widen_trust(creds, 'c08-%d' % u['_i'], before, after))
     if u['mutual'] == 'offered-not-requested':
         srv_ctx, cli_ctx = T.pair_ctx(ctx, creds, proto, False, client_has_cert=True)
     else:
@@ -350,6 +357,9 @@ def u_independent_peer(ctx, u):
     pname = u['proto']
     proto = T.PROTOS[pname]
     creds = T.Creds(ctx, 'c08i-%d' % u['_i'], u.get('inter', 1))
+    before, after = TRUST_SHAPES[(u['_i'] + 1) % len(TRUST_SHAPES)]
+    if before + after:
+        ctx.stat('independent_peer_units_with_%d_trusted_roots' % T.widen_trust(creds, 'c08i-%d' % u['_i'], before, after))
     mutual = bool(u.get('mutual'))
     srv_ctx, cli_ctx = T.pair_ctx(ctx, creds, proto, mutual)
     cli_chain = [creds.cli_cert] + list(reversed(creds.pki.inters))
